@@ -904,6 +904,17 @@ impl Rig {
                         "found": !v.is_null()}));
                 }
             }
+            "clock_step" => {
+                // the machine's wall clock is stepped (time synchronisation, an administrator, a resumed VM): the LD_PRELOAD
+                // shim of the check adds the number in VERIF_CLOCK_FILE to CLOCK_REALTIME; CLOCK_MONOTONIC is left alone
+                let wall = || std::time::SystemTime::now().duration_since(std::time::UNIX_EPOCH).map(|d| d.as_millis() as i64).unwrap_or(0);
+                let before = wall();
+                let secs = st["secs"].as_i64().unwrap_or(0);
+                if let Ok(p) = std::env::var("VERIF_CLOCK_FILE") {
+                    let _ = std::fs::write(p, secs.to_le_bytes());
+                }
+                verif::trace::emit(json!({"e": "ClockStep", "secs": secs, "wall_before_ms": before, "wall_after_ms": wall()}));
+            }
             "arm" => verif::sched::arm(st["label"].as_str().unwrap(), st["skip"].as_u64().unwrap_or(0) as usize),
             "disarm" => verif::sched::disarm(st["label"].as_str().unwrap()),
             "release" => {
